@@ -298,6 +298,22 @@ func (s *NCServer) nextMessage() (string, bool) {
 }
 
 // HelloSpec describes a server hello.
+// StdCaps: the optional capabilities a server needs to advertise for the operations the harness
+// sends (candidate datastore, confirmed commit, validate, startup, xpath filters, notifications): a
+// library that checks an operation against the server's capabilities first must find them.
+var StdCaps = []string{
+	"urn:ietf:params:netconf:capability:candidate:1.0",
+	"urn:ietf:params:netconf:capability:confirmed-commit:1.1",
+	"urn:ietf:params:netconf:capability:rollback-on-error:1.0",
+	"urn:ietf:params:netconf:capability:validate:1.1",
+	"urn:ietf:params:netconf:capability:startup:1.0",
+	"urn:ietf:params:netconf:capability:writable-running:1.0",
+	"urn:ietf:params:netconf:capability:xpath:1.0",
+	"urn:ietf:params:netconf:capability:notification:1.0",
+	"urn:ietf:params:netconf:capability:interleave:1.0",
+	"urn:ietf:params:xml:ns:yang:ietf-yang-push?module=ietf-yang-push",
+}
+
 type HelloSpec struct {
 	Caps      []string `json:"caps"`
 	Prefix    string   `json:"prefix"`     // "" or e.g. "nc"
